@@ -148,7 +148,7 @@ func c04Scenario(p c04Params, idx int) *explore.Scenario {
 		return out, viol, res
 	}
 	sc.Filter = func(pt *vrt.Point, alt int) bool {
-		if pt.Alts[alt].Kind == vrt.AltDemote {
+		if pt.Alts[alt].Kind != vrt.AltRun {
 			return true
 		}
 		switch pt.Infos[alt].Kind {
